@@ -5,7 +5,6 @@ from vlib import strat as S, oracles as O, groups as GR, sf as SF
 
 ID = "C07"
 SWITCH_OFF = 6        # every 6th case runs with xfab.CHECKS switched off (results must not depend on it)
-TARGETED = True     # thorough tier uses hypothesis.target on the residual/tolerance ratios
 RULE = ("one unit per setting (230 standard + 7 rhombohedral, called by name incl. case/blank variants); per case a conforming "
         "cell, 1-4 atoms at generic positions k/9973 with element from the full table, occupancy in (0,1], Uiso / positive-definite "
         "Uani / no ADP, symmulti = nsymop, three hkl in [-8,8]^3, an operation index, and an operator-extinct hkl picked from the "
